@@ -14,6 +14,36 @@ theorem flushBuffer_proj (pm maps : List MapAdd) (q : List (Nat × MapAdd)) (us 
     unfold flushBuffer
     simp only [List.map_cons]
     rw [ih]
+    rfl
+
+theorem flushBuffer_kind (pm maps : List MapAdd) (q : List (Nat × MapAdd)) (us : List USample) :
+    (flushBuffer pm maps q us).map (fun o => (o.1, o.2.t, o.2.weight, o.2.kind)) =
+      us.map (fun u => (u.th, u.t, u.weight, u.kind)) := by
+  induction us generalizing maps q with
+  | nil => rfl
+  | cons u rest ih =>
+    unfold flushBuffer
+    simp only [List.map_cons]
+    rw [ih]
+
+/-- a recorded sample is no marker item: filtering the markers out first changes nothing -/
+theorem filter_marker_synthO (l : List (Nat × OutSample)) :
+    (l.filter (fun o => !o.2.marker)).filter (fun o => !o.2.synth) = l.filter (fun o => !o.2.synth) := by
+  rw [List.filter_filter]
+  apply List.filter_congr
+  intro o _
+  cases h : o.2.synth
+  · simp [OutSample.marker_of_not_synth _ h]
+  · simp
+
+theorem filter_marker_synthU (l : List USample) :
+    (l.filter (fun u => !u.marker)).filter (fun u => !u.synth) = l.filter (fun u => !u.synth) := by
+  rw [List.filter_filter]
+  apply List.filter_congr
+  intro u _
+  cases h : u.synth
+  · simp [USample.marker_of_not_synth _ h]
+  · simp
 
 theorem flatMap_filter_nonempty {γ} (f : USample → γ) (procs : List (Nat × ProcC)) :
     ((procs.filter (fun p => !p.2.samples.isEmpty)).map (fun p => (p.2.samples, p.2.mapq, p.2.pid))).flatMap
@@ -42,15 +72,30 @@ theorem flushAll_proj (s : St) :
   congr 1
   rw [List.map_flatMap]
 
+theorem flushAll_kind (s : St) :
+    (flushAll s).map (fun o => (o.1, o.2.t, o.2.weight, o.2.kind)) =
+      (buffered s).map (fun u => (u.th, u.t, u.weight, u.kind)) := by
+  unfold flushAll
+  rw [List.map_flatMap]
+  have : (fun b : List USample × List (Nat × MapAdd) × Nat =>
+      (flushBuffer (perfMapTable s.cfg b.2.2) [] b.2.1 b.1).map (fun o => (o.1, o.2.t, o.2.weight, o.2.kind))) =
+      (fun b => b.1.map (fun u => (u.th, u.t, u.weight, u.kind))) := by
+    funext b; exact flushBuffer_kind (perfMapTable s.cfg b.2.2) [] b.2.1 b.1
+  rw [this]
+  unfold allBuffers buffered
+  rw [List.flatMap_append, List.map_append, flatMap_filter_nonempty]
+  congr 1
+  rw [List.map_flatMap]
+
 /-- the views, keyed by anything computable from the entry index, time, weight and the synthesized flag, list
-exactly the buffered samples -/
+exactly the buffered samples (the buffered items that are not marker items) -/
 theorem views_perm_buffered {γ} (s : St) (hinv : InvA s)
     (hsok : ∀ u ∈ buffered s, u.th < (tsk s.tents).length)
     (F : View → OutSample → γ) (G : Nat → Nat → Nat → Bool → γ)
     (hFG : ∀ i te v, s.tents[i]? = some te → viewOf s (flushAll s) i te = some v →
       ∀ o, F v o = G i o.t o.weight o.synth) :
     List.Perm ((views s).flatMap (fun v => v.samples.map (F v)))
-      ((buffered s).map (fun u => G u.th u.t u.weight u.synth)) := by
+      (((buffered s).filter (fun u => !u.marker)).map (fun u => G u.th u.t u.weight u.synth)) := by
   have hv : ∀ te ∈ s.tents, te.proc < s.pents.length := by
     intro te hte
     have := hinv.tents (te.proc, te.tid) (List.mem_map_of_mem (f := fun e : TEntry => (e.proc, e.tid)) hte)
@@ -68,10 +113,11 @@ theorem views_perm_buffered {γ} (s : St) (hinv : InvA s)
   have h := views_perm s (flushAll s) F (fun i o => G i o.t o.weight o.synth) hv hout hFG
   unfold views
   refine h.trans (List.Perm.of_eq ?_)
-  have : (flushAll s).map (fun o => G o.1 o.2.t o.2.weight o.2.synth) =
-      ((flushAll s).map (fun o => (o.1, o.2.t, o.2.weight, o.2.synth))).map (fun x => G x.1 x.2.1 x.2.2.1 x.2.2.2) := by
-    rw [List.map_map]; rfl
-  rw [this, flushAll_proj, List.map_map]
+  have : ((flushAll s).filter (fun o => !o.2.marker)).map (fun o => G o.1 o.2.t o.2.weight o.2.synth) =
+      ((((flushAll s).map (fun o => (o.1, o.2.t, o.2.weight, o.2.kind))).filter
+        (fun x => !(x.2.2.2 == ItemKind.marker))).map (fun x => G x.1 x.2.1 x.2.2.1 (x.2.2.2 != ItemKind.recorded))) := by
+    rw [List.filter_map, List.map_map]; rfl
+  rw [this, flushAll_kind, List.filter_map, List.map_map]
   rfl
 
 def entKey (s : St) (i : Nat) : Nat × Nat :=
@@ -137,5 +183,6 @@ theorem accStep_no_idle (st : Last × List Acc) (r : Rec) (h : ∀ a ∈ st.2, a
   | switchIn => exact h
   | switchOut => exact h
   | sched => exact h
+  | otherEvent => exact h
 
 end Conv
